@@ -41,35 +41,51 @@ static size_t xv_put (char *str, size_t size, size_t pos, char c)
   return pos + 1;
 }
 
-/* Every number the library prints has at most 10 decimal digits (rounds
-   <= 999999999, iteration counts and loop indices <= 2^32-1); larger values
-   are outside the model and fail an obligation instead of being guessed.  */
+/* Decimal conversion.  Up to 10 digits: the fast path used by almost every
+   caller.  11..20 digits (sha1crypt prints whatever iteration count strtoul
+   accepted): same construction with a 128-bit Horner accumulator, so that the
+   digit string is still pinned uniquely.  */
 static size_t xv_put_dec (char *str, size_t size, size_t pos, unsigned long long v)
 {
-  __CPROVER_assert (v <= 9999999999ULL, "snprintf model: decimal argument has at most 10 digits");
-  /* digit count by comparison with powers of ten; digit values chosen
-     nondeterministically and pinned by a Horner evaluation (unique solution;
-     no division, which the SAT back end handles badly) */
-  unsigned nd = xv_dec_ndigits (v);
-  unsigned char d[10];
-  unsigned long long acc = 0;
-  for (unsigned i = 0; i < 10; i++)   /* XV_UNWIND 10 */
+  unsigned nd = xv_dec_ndigits (v);          /* 1..10, or 10 for anything larger */
+  _Bool big = v > 9999999999ULL;
+  unsigned char d[20];
+  if (!big)
     {
-      d[i] = nondet_uchar ();
-      __CPROVER_assume (d[i] <= 9);
-      if (i < nd)
-        acc = acc * 10 + d[i];
+      unsigned long long acc = 0;
+      for (unsigned i = 0; i < 10; i++)   /* XV_UNWIND 10 */
+        {
+          d[i] = nondet_uchar ();
+          __CPROVER_assume (d[i] <= 9);
+          if (i < nd)
+            acc = acc * 10 + d[i];
+        }
+      __CPROVER_assume (acc == v);
     }
-  __CPROVER_assume (acc == v);
+  else
+    {
+      unsigned char nbig = nondet_uchar ();
+      __CPROVER_assume (nbig >= 11 && nbig <= 20);
+      unsigned __int128 acc = 0;
+      for (unsigned i = 0; i < 20; i++)   /* XV_UNWIND 20 */
+        {
+          d[i] = nondet_uchar ();
+          __CPROVER_assume (d[i] <= 9);
+          if (i < nbig)
+            acc = acc * 10 + d[i];
+        }
+      __CPROVER_assume (acc == (unsigned __int128) v);
+      nd = nbig;
+    }
+  __CPROVER_assume (nd == 1 || d[0] != 0);   /* canonical form; implied, stated to spare the solver the arithmetic */
   /* A-dec: a number that strtoul parsed from a canonical digit string prints
      as exactly those digits */
   for (unsigned r = 0; r < XV_PARSE_LOG; r++)
     if (r < xv_parse_n && !xv_parse_log[r].overflow && xv_parse_log[r].v == v
-        && xv_parse_log[r].nd == nd && xv_parse_log[r].dig[0] != 0)
+        && xv_parse_log[r].nd == nd && nd <= 10 && xv_parse_log[r].dig[0] != 0)
       for (unsigned i = 0; i < 10; i++)   /* XV_UNWIND 10 */
         if (i < nd)
           __CPROVER_assume (d[i] == xv_parse_log[r].dig[i]);
-  __CPROVER_assume (nd == 1 || d[0] != 0);   /* canonical form; implied, stated to spare the solver the arithmetic */
   if (xv_dec_n < XV_DEC_LOG)
     {
       xv_dec_log[xv_dec_n].at = str + pos;
@@ -80,7 +96,7 @@ static size_t xv_put_dec (char *str, size_t size, size_t pos, unsigned long long
       xv_dec_n++;
     }
   /* digit i goes to pos + i: keeps the indices constant when pos is */
-  for (unsigned i = 0; i < 10; i++)   /* XV_UNWIND 10 */
+  for (unsigned i = 0; i < 20; i++)   /* XV_UNWIND 20 */
     if (i < nd)
       (void) xv_put (str, size, pos + i, (char) ('0' + (int) d[i]));
   pos += nd;
@@ -97,8 +113,11 @@ static size_t xv_put_str (char *str, size_t size, size_t pos, const char *s, siz
       size_t n = reglen < maxlen ? reglen : maxlen;
       size_t room = (size > 0 && pos < size - 1) ? size - 1 - pos : 0;
       size_t c = n < room ? n : room;
-      if (c > 0)
-        memcpy (str + pos, s, c);
+      /* bounded element copy (the output buffers are at most 384 bytes) */
+      __CPROVER_assert (c <= 384, "snprintf model: at most 384 characters copied by %.*s");
+      for (size_t i = 0; i < 384; i++)   /* XV_UNWIND 384 */
+        if (i < c)
+          str[pos + i] = s[i];
       return pos + n;
     }
   for (size_t i = 0; i < XV_SNPRINTF_SCAN; i++)   /* XV_UNWIND 40 */
